@@ -145,7 +145,9 @@ func runArchive(c *ctx) error {
 		return err
 	}
 	s := newScn(c, t)
-	for _, q := range []string{"ImpactList", "ImpactSet", "RotPoll", "RotGo", "UDPRead"} {
+	// (the server's own events are not what this family validates; report events with their state projection would
+	// make the bulk loads below quadratic)
+	for _, q := range []string{"ImpactList", "ImpactSet", "RotPoll", "RotGo", "UDPRead", "RecvReport", "Direct"} {
 		s.Quiet[q] = true
 	}
 	a := &arcEnv{scn: s, ta: ta, next: 100}
@@ -311,6 +313,64 @@ func runArchive(c *ctx) error {
 			}
 		}
 		ta.Emit(hx.J{"a": "Burst", "ok": ok, "statuses": statuses, "n200": n200, "rate_us": int(consts["apiArchiveRateMs"] * 1000), "limit": int(consts["apiArchiveLimit"])})
+	}
+	// several archives of large files served at the same time (the limiter admits its whole allowance at once): each
+	// one is a well-formed zip whose files are record-aligned prefixes of the files on disk
+	{
+		rate := time.Duration(consts["apiArchiveRateMs"]) * time.Millisecond
+		limit := int(consts["apiArchiveLimit"])
+		var big []uint32
+		for d := 0; d < 6; d++ {
+			a.next++
+			id := a.next
+			a.Authorize(a.BuildAuth(hx.AuthSpec{ID: id, Key: fmt.Sprintf("ad%d", id), Cap: 100000, Signer: "gca"}))
+			big = append(big, id)
+		}
+		now := a.Now()
+		for k := uint32(0); k < 700; k++ {
+			for _, id := range big {
+				a.Srv.VerifHandleDatagram(a.ReportBytes(id, now-k%430, 100+uint64(k), fmt.Sprintf("ad%d", id), 0))
+			}
+		}
+		for round := 0; round < 4; round++ {
+			time.Sleep(rate + 20*time.Millisecond)
+			var wg3 sync.WaitGroup
+			for g := 0; g < limit; g++ {
+				wg3.Add(1)
+				go func() {
+					defer wg3.Done()
+					st, body := s.Get("/api/v1/archive")
+					j := hx.J{"a": "ArchiveBig", "status": st, "zipok": false, "prefix": false, "aligned": false, "bytes": len(body)}
+					if st == 200 {
+						zr, err := zip.NewReader(bytes.NewReader(body), int64(len(body)))
+						zipok, prefix, aligned := err == nil, true, true
+						if err == nil {
+							for _, f := range zr.File {
+								rc, e1 := f.Open()
+								if e1 != nil {
+									zipok = false
+									continue
+								}
+								b, e2 := io.ReadAll(rc) // a checksum error shows here
+								rc.Close()
+								if e2 != nil {
+									zipok = false
+								}
+								if cur, e3 := os.ReadFile(filepath.Join(a.Dir, f.Name)); e3 == nil && !bytes.HasPrefix(cur, b) {
+									prefix = false
+								}
+								if (f.Name == "equipment-reports.dat" && len(b)%80 != 0) || (f.Name == "equipment-authorizations.dat" && len(b)%148 != 0) {
+									aligned = false
+								}
+							}
+						}
+						j["zipok"], j["prefix"], j["aligned"] = zipok, prefix, aligned
+					}
+					ta.Emit(j)
+				}()
+			}
+			wg3.Wait()
+		}
 	}
 	// paced requests: one opens a window, the rest of the allowance comes late in it, a burst follows just
 	// after the first request has aged out: the window slides, it is not restarted as a whole
